@@ -57,6 +57,31 @@ let eval inp obs =
       | _ -> false in
     { default_verdict with model_obs = mo; spec_ok = Some (chk obs spec);
       nontrivial = List.length ids >= 2 }
+  | ["IDLESS"; e1; l1; t1; e2; l2; t2] ->
+    (* hash.OrderedEvents{a, b}.Less(0, 1) *)
+    let e1 = n_of_tok e1 and l1 = n_of_tok l1 and t1 = bytes_of_hex t1
+    and e2 = n_of_tok e2 and l2 = n_of_tok l2 and t2 = bytes_of_hex t2 in
+    { default_verdict with
+      model_obs = [tok_of_bool (less_ids (event_id e1 l1 t1) (event_id e2 l2 t2))];
+      spec_ok = Some (obs = [tok_of_bool (tless ((e1, l1), t1) ((e2, l2), t2))]) }
+  | "IDSORT" :: rest ->
+    (* IDSORT e l tail e l tail ...   obs: the ids as hash.OrderedEvents.ByEpochAndLamport leaves them *)
+    let rec triples = function
+      | [] -> []
+      | e :: l :: t :: r -> ((n_of_tok e, n_of_tok l), bytes_of_hex t) :: triples r
+      | _ -> failwith "bad triple list" in
+    let ts = triples rest in
+    let ids = List.map (fun ((e, l), t) -> event_id e l t) ts in
+    let model_obs = List.map hex_of_bytes (id_sort ids) in
+    (* spec on the observation: a permutation of the input ids whose decoded (epoch, lamport, tail)
+       triples are in non-decreasing order *)
+    let rec drop k l = if k = 0 then l else (match l with [] -> [] | _ :: r -> drop (k - 1) r) in
+    let spec o =
+      let obs_ids = List.map bytes_of_hex o in
+      let dec = List.map (fun id -> ((id_epoch id, id_lamport id), drop 8 id)) obs_ids in
+      List.sort compare o = List.sort compare (List.map hex_of_bytes ids) && triples_sorted dec in
+    { default_verdict with model_obs; spec_ok = Some (spec obs); model_spec_ok = spec model_obs;
+      nontrivial = List.length ts >= 2 }
   | _ -> failwith "bad case"
 
 let () = run eval
